@@ -1,7 +1,7 @@
 #!/bin/bash
 # usage: selftest.sh <property-id>
-# Checker self-test (static): every seeded mutation recorded as caught for this
-# property is applied to a scratch copy of /repo's working tree (outside /repo
+# Checker self-test (static): every seeded mutation written for this property (and
+# recorded as caught by it) is applied to a scratch copy of /repo's working tree (outside /repo
 # and /verif, removed at once) and the property's rules are evaluated on the
 # variant source; the check must fail there. Nothing is executed from the variant.
 cd "$(dirname "$0")"
@@ -15,7 +15,7 @@ for d in seeded/*/; do
   python3 - "$m" "$id" <<'PY' || continue
 import json,sys
 m=json.load(open(sys.argv[1]))
-sys.exit(0 if sys.argv[2] in m.get("caught_by",{}) else 1)
+sys.exit(0 if m.get("property")==sys.argv[2] and sys.argv[2] in m.get("caught_by",{}) else 1)
 PY
   tmp=$(mktemp -d /tmp/mgself.XXXXXX)
   rsync -a --exclude .git /repo/ "$tmp/"
